@@ -8,6 +8,7 @@
 #include <sys/syscall.h>
 #include <linux/futex.h>
 #include <limits.h>
+#include <ucontext.h>
 
 namespace verif{
 
@@ -42,10 +43,15 @@ struct SchedState{
   // PCT / k-preempt change points (step numbers)
   long change[8]; int nchange; int next_low_prio;
   pthread_key_t key; int key_made;
+  int fibers;          // cooperative tasks on one OS thread instead of parked real threads (no thread-local storage of their own)
 };
 
 SchedState S;
 __thread int g_tid=-1;
+int g_fibers_next=0;
+ucontext_t g_main_ctx; ucontext_t g_ctx[SCHED_MAXT]; char* g_stack[SCHED_MAXT];
+enum { FIBER_STACK=256*1024 };
+inline int cur_tid(){ return S.fibers?S.current:g_tid; }
 
 long raw_futex(int* uaddr,int op,int val){
   long ret;
@@ -148,13 +154,33 @@ void hand_over(int from,int to){
   S.switches++;
   if(from>=0 && S.t[from].in_op && S.t[from].state!=T_DONE) S.preempt_in_op++;
   S.current=to;
+  if(S.fibers) return;      // the caller switches context itself
   if(to>=0) baton_post(&S.t[to].word); else baton_post(&S.main_word);
 }
+void fiber_switch(int from,int to){
+  ucontext_t* f=(from>=0)?&g_ctx[from]:&g_main_ctx; ucontext_t* t=(to>=0)?&g_ctx[to]:&g_main_ctx;
+  swapcontext(f,t);
+}
+void fiber_finish(int tid);
+void fiber_entry(int tid){
+  S.t[tid].fn(S.t[tid].arg,tid);
+  fiber_finish(tid);
+}
 
+int finish_and_choose(int tid);
+void fiber_finish(int tid){
+  int next=finish_and_choose(tid);
+  hand_over(tid,next);
+  if(next>=0) setcontext(&g_ctx[next]); else setcontext(&g_main_ctx);
+}
 void thread_finished(void*){
   // runs as a pthread key destructor: after every C++ thread_local destructor of this thread
   int tid=g_tid;
   if(tid<0||!S.active) return;
+  int next=finish_and_choose(tid);
+  hand_over(tid,next);
+}
+int finish_and_choose(int tid){
   S.steps++; mixhash(tid,-2);
   S.t[tid].state=T_DONE;
   int next=choose(-1);
@@ -168,7 +194,7 @@ void thread_finished(void*){
       next=lowest_runnable();
     }
   }
-  hand_over(tid,next);
+  return next;
 }
 
 void* entry(void* p){
@@ -187,6 +213,7 @@ void sched_begin(int policy,uint64_t seed,const int* replay,int nreplay,int pct_
   memset(&S,0,sizeof S);
   S.key=key; S.key_made=km;
   if(!S.key_made){ pthread_key_create(&S.key,thread_finished); S.key_made=1; }
+  S.fibers=g_fibers_next;
   S.active=1; S.policy=policy; S.replay=replay; S.nreplay=nreplay; S.current=-1;
   S.hash=1469598103934665603ULL; S.budget=step_budget;
   seed_rng(seed);
@@ -201,12 +228,23 @@ int sched_spawn(sched_body_fn fn,void* arg){
   int tid=S.nthreads++;
   S.t[tid].fn=fn; S.t[tid].arg=arg; S.t[tid].state=T_RUNNABLE; S.t[tid].word=0;
   S.t[tid].prio=(int)(rnd()%1000)+10;
+  if(S.fibers){
+    if(!g_stack[tid]) g_stack[tid]=(char*)malloc(FIBER_STACK);
+    getcontext(&g_ctx[tid]); g_ctx[tid].uc_stack.ss_sp=g_stack[tid]; g_ctx[tid].uc_stack.ss_size=FIBER_STACK; g_ctx[tid].uc_link=&g_main_ctx;
+    makecontext(&g_ctx[tid],(void(*)())fiber_entry,1,tid);
+    return tid;
+  }
   pthread_create(&S.t[tid].th,0,entry,(void*)(long)tid);
   return tid;
 }
 
 void sched_run(){
   int first=choose(-1);
+  if(S.fibers){
+    if(first>=0){ hand_over(-1,first); fiber_switch(-1,first); }
+    S.current=-1;
+    return;
+  }
   if(first>=0){
     hand_over(-1,first);
     baton_wait(&S.main_word);
@@ -214,6 +252,7 @@ void sched_run(){
   for(int i=0;i<S.nthreads;i++) pthread_join(S.t[i].th,0);
   S.current=-1;
 }
+void sched_use_fibers(int on){ g_fibers_next=on; }
 
 SchedResult sched_end(){
   SchedResult r;
@@ -226,30 +265,30 @@ SchedResult sched_end(){
 
 int sched_active(){ return S.active; }
 int sched_aborted(){ return S.abort_all; }
-int sched_self(){ return S.active?g_tid:-1; }
+int sched_self(){ return S.active?cur_tid():-1; }
 long sched_step(){ return S.steps; }
 int sched_ndecisions(){ return S.ndec; }
 const int* sched_decisions(){ return dec_buf; }
 
 void sched_set_in_op(int flag){
-  int tid=g_tid; if(!S.active||tid<0) return;
+  int tid=cur_tid(); if(!S.active||tid<0) return;
   S.t[tid].in_op=flag;
 }
 
 void sched_yield(int site){
-  int tid=g_tid;
+  int tid=cur_tid();
   if(!S.active||tid<0||S.current!=tid) return;
   S.steps++; mixhash(tid,site);
   if(S.budget>0 && S.steps>S.budget) S.overflow=1;
   int next=choose(tid);
   if(next!=tid && next>=0){
     hand_over(tid,next);
-    baton_wait(&S.t[tid].word);
+    if(S.fibers) fiber_switch(tid,next); else baton_wait(&S.t[tid].word);
   }
 }
 
 void sched_block(int key,int site){
-  int tid=g_tid;
+  int tid=cur_tid();
   if(!S.active||tid<0) return;
   if(S.abort_all) return;
   S.steps++; mixhash(tid,site);
@@ -262,7 +301,7 @@ void sched_block(int key,int site){
     return;
   }
   hand_over(tid,next);
-  baton_wait(&S.t[tid].word);
+  if(S.fibers) fiber_switch(tid,next); else baton_wait(&S.t[tid].word);
 }
 
 void sched_wake(int key){
@@ -271,7 +310,7 @@ void sched_wake(int key){
 }
 
 int sched_coin(int percent){
-  if(!S.active||g_tid<0||S.overflow) return 0;
+  if(!S.active||cur_tid()<0||S.overflow) return 0;
   if(S.replay){
     // coins are stored in the same list, encoded as 100 (false) / 101 (true)
     if(S.replay_pos<S.nreplay && S.replay[S.replay_pos]>=100){ return S.replay[S.replay_pos++]-100; }
